@@ -25,6 +25,12 @@ RULE = (
     "ASCII or a position case"
 )
 
+# code points that software tends to treat specially (byte order marks, zero
+# width and bidi controls, Unicode line/paragraph separators and spaces, ^Z,
+# soft hyphen, replacement characters)
+SPECIALS = [0x1A, 0x85, 0xA0, 0xAD, 0x1680, 0x180E, 0x2028, 0x2029, 0x202F, 0x205F,
+            0x2060, 0x3000, 0xFEFF, 0xFFFE, 0xFFF9, 0xFFFC, 0xFFFD] + \
+    list(range(0x2000, 0x2010)) + list(range(0x202A, 0x202F))
 EDGES = sorted({0, 1, 7, 8, 9, 10, 11, 12, 13, 14, 15, 30, 31, 32, 33, 126, 127,
                 128, 129, 158, 159, 160, 161, 254, 255, 256, 257, 0x2FF, 0x300,
                 0xD7FF, 0xD800, 0xDBFF, 0xDC00, 0xDFFF, 0xE000, 0xFFFE, 0xFFFF,
@@ -81,6 +87,10 @@ TEMPLATES = [
     ("inside-set", HEAD + "k = {{1, {c}2}}\nEND\n", True),
     ("end-of-value-before-newline", HEAD + "k = @abc{c}\nj = 2\nEND\n", True),
     ("just-before-END", HEAD + "k = 1\n{c}END\n", True),
+    ("after-dash-and-line-break", HEAD + "k = @ab-\n{c} cd\nEND\n", True),
+    ("value-after-a-missing-value-in-a-block",
+     HEAD + "GROUP = g\n  a =\n  b = {c}1\nEND_GROUP\nEND\n", True),
+    ("name-after-a-missing-value", HEAD + "a =\n{c}b = 1\nEND\n", True),
     ("after-END-newline", HEAD + "k = 1\nEND\n{c} trailing", False),
     ("after-END-directly", HEAD + "k = 1\nEND{c}", False),
     ("after-END-space", HEAD + "k = 1\nEND {c}{c}", False),
@@ -121,12 +131,18 @@ def check_error(rec, e, text, i, ts, feats, wit):
     rec.count("error_attribute_checks")
     if problems:
         kinds = sorted({p.split(" ")[0] for p in problems})
+        import re
         rec.violation("C15", feats["dialect"], "error-attributes-inconsistent",
                       {"which": "+".join(kinds),
-                       "char_starts_lexeme": ts == i}, wit, "; ".join(problems))
+                       "char_starts_lexeme": ts == i,
+                       "route": wit.get("route"),
+                       "doc_differs": getattr(e, "doc", None) != text,
+                       "dash_continuation_before_char":
+                           re.search(r"-[\n\r\f]", text[:i]) is not None},
+                      wit, "; ".join(problems))
 
 
-def positions(rec, hb, pvl, cps, part, nparts):
+def positions(rec, hb, pvl, cps, part, nparts, only=None):
     LexerError = pvl.exceptions.LexerError
     ParseError = pvl.exceptions.ParseError
     G = grammars(pvl)
@@ -134,6 +150,10 @@ def positions(rec, hb, pvl, cps, part, nparts):
     for dialect in ("PVL", "ODL", "PDS3"):
         for route in ("strict-parser", "loads(grammar=G)"):
             for name, tmpl, before_end in TEMPLATES:
+                if route == "strict-parser" and "missing-value" in name:
+                    continue    # only the Omni parser tolerates missing values
+                if only is not None and name not in only:
+                    continue
                 for o in cps:
                     n += 1
                     if n % nparts != part:
@@ -367,11 +387,15 @@ def shard(i, n, tier, seed, rec, hb):
     rng = random.Random(f"C15-{seed}")
     table(rec, hb, pvl, i, n)
     any_offset(rec, hb, pvl, tier, seed, i, n)
-    cps = set(range(0, 0x300)) | set(EDGES)
+    cps = set(range(0, 0x300)) | set(EDGES) | set(SPECIALS)
     cps |= {rng.randrange(0x300, 0x110000) for _ in range(300 if tier == "quick" else 3000)}
     if tier == "thorough":
         cps |= set(range(0x300, 0x3000))
     positions(rec, hb, pvl, sorted(cps), i, n)
+    if tier == "thorough":
+        # every code point at the very start of the text and between statements
+        positions(rec, hb, pvl, [o for o in range(0x3000, 0x110000) if o not in cps],
+                  i, n, only=("start-of-text", "between-statements"))
     if tier == "thorough":
         dq = range(0, 0x110000)
     else:
